@@ -6,7 +6,7 @@ The closure of the local function captures the binding of `f` itself, the functi
 not: the captured environments agree outside `f`, which the body never looks up.
 -/
 namespace DarkluaModel.Sem.Heap
-variable {N : NumOps} {Q : QRel} {β : CellRel}
+variable {N : NumOps} {Q : QRel} {cx : Cx} {β : CellRel}
 
 theorem listSet_append_len {α : Type} (l : List α) (a b : α) : listSet (l ++ [a]) l.length b = l ++ [b] := by
   induction l with
@@ -18,9 +18,9 @@ theorem localFn_state (σ : State N) (clo : Closure N) (v : Val N) :
       ((σ.allocCell v).2.allocClosure clo).2 := by
   simp only [State.allocCell, State.allocClosure, State.setCell, listSet_append_len]
 
-theorem localFn_to_assign_sound (hq : QRefl Q) {D : List String} {kind kind' : LocalKind} {name : String}
+theorem localFn_to_assign_sound (hq : QRefl cx Q) {D : List String} {kind kind' : LocalKind} {name : String}
     {ty : Option Ty} {f : FnBody} (hf : NoRefF (name :: D) f) :
-    SoundS Q D (.localFn kind name f) (.localAssign kind' [.mk name ty] [.fn f]) := by
+    SoundS Q cx D (.localFn kind name f) (.localAssign kind' [.mk name ty] [.fn f]) := by
   intro N call ρ k env env' σ σ' β hc hs he
   simp only [execS, evalEs, evalE, Res.bind, List.map_cons, List.map_nil, TName.name, Sem.bindLocals, first,
     List.headD]
@@ -37,7 +37,7 @@ theorem localFn_to_assign_sound (hq : QRefl Q) {D : List String} {kind kind' : L
       ((he.2.mono le_extBoth).weaken fun x hx => List.mem_cons_of_mem _ hx).consLeft name _ List.mem_cons_self⟩
   have h2 := h1.allocClosure hclo
   refine RRel.mono (le_extBoth (σ := σ) (σ' := σ')) ?_
-  refine RRel.ok (A := ACtlS D) ⟨he.1, he1⟩ ?_
+  refine RRel.ok (A := ACtlS cx D) ⟨he.1, he1⟩ ?_
   have key := h2.2
   simp only [State.allocClosure, State.allocCell, hs.closure_length] at key ⊢
   exact key
